@@ -357,10 +357,10 @@ theorem findElement_account {txs : List Transaction} {p : LspPos} {rng : Rng} {a
     · obtain ⟨t, ht, r⟩ := ih h
       exact ⟨t, List.mem_cons_of_mem _ ht, r⟩
 
-/-- Guard of the known finding orphan-file-not-counted, positively: when the transactions of
-    the requesting document are among those Hover aggregates over (the file is the root or a
-    member of the tree, and in sync), an account hover counts at least the posting under the
-    cursor. -/
+/-- When the transactions of the requesting document are among those Hover aggregates over,
+    an account hover counts at least the posting under the cursor.  (Was the positive form of
+    the guard of the finding orphan-file-not-counted; `current_file_counted` below discharges
+    the hypothesis for the repaired server.) -/
 theorem current_file_counted_partial (ws perUri : Option Resolved) (doc : Journal)
     (lns : List HL.Text.Txt) (p : LspPos) (rng : Rng) (acc : Account)
     (h : findElement doc.transactions (runePos lns p) = some (.account rng acc))
@@ -377,6 +377,74 @@ theorem current_file_counted_partial (ws perUri : Option Resolved) (doc : Journa
   refine ⟨po, ?_, by simp [hacc]⟩
   simp only [allPostings, List.mem_flatMap]
   exact ⟨tx, hsub tx htx, hpo⟩
+
+/-! ### Which resolved journal, per requesting file (fix-orphan-journal-own-tree.diff) -/
+
+/-- From the root journal or a file of its include tree Hover aggregates over the workspace's
+    tree; from any other journal (and without a workspace) over the document's own tree, as
+    resolved for its URI, or over the document alone before that exists. -/
+theorem hover_tree_choice (w : WsView) (perUri : Option Resolved) (path : Bytes) (doc : Journal)
+    (lns : List HL.Text.Txt) (p : LspPos) :
+    (w.contains path = true → hoverAt (some w) perUri path doc lns p = hover (some w.resolved) perUri doc lns p) ∧
+    (w.contains path = false → hoverAt (some w) perUri path doc lns p = hover none perUri doc lns p) ∧
+    hoverAt none perUri path doc lns p = hover none perUri doc lns p := by
+  refine ⟨fun h => ?_, fun h => ?_, rfl⟩ <;> simp [hoverAt, workspaceResolvedFor, h]
+
+/-- The snapshots Hover may consult hold the requesting document's own current tree: the
+    workspace under the document's path (root journal or member file, which `FileOrder` lists),
+    the per-URI resolved journal as its primary.  This is what the server maintains —
+    workspace: every didOpen/didChange/didSave passes the buffer to `UpdateFile`
+    (HL.Props.C09.workspace_follows_buffers); per URI: the stored tree is absent or that of the
+    current text (HL.Props.C01Fresh.resolved_fresh). -/
+structure InSync (v : Option WsView) (perUri : Option Resolved) (path : Bytes) (doc : Journal) : Prop where
+  root : ∀ w, v = some w → path = w.root → w.resolved.primary = some doc
+  member : ∀ w, v = some w → path ≠ w.root → (lookupFile w.resolved.files path).isSome = true →
+    lookupFile w.resolved.files path = some doc ∧ path ∈ w.resolved.order
+  own : ∀ r, perUri = some r → r.primary = some doc
+
+/-- The transactions of the requesting document are among those Hover aggregates over,
+    wherever the request comes from: root, member file, a journal outside the root's tree, or
+    no workspace at all. -/
+theorem current_file_in_scope (v : Option WsView) (perUri : Option Resolved) (path : Bytes)
+    (doc : Journal) (hs : InSync v perUri path doc) :
+    ∀ tx ∈ doc.transactions, tx ∈ hoverTransactions (workspaceResolvedFor v path) perUri doc := by
+  intro tx htx
+  have hown : tx ∈ hoverTransactions none perUri doc := by
+    cases hp : perUri with
+    | none => simpa [hoverTransactions, workspaceResolved] using htx
+    | some r =>
+      have := hs.own r hp
+      simp only [hoverTransactions, workspaceResolved, allTransactions, this, List.mem_append]
+      exact Or.inl htx
+  cases hv : v with
+  | none => simpa [workspaceResolvedFor] using hown
+  | some w =>
+    by_cases hc : w.contains path = true
+    · simp only [workspaceResolvedFor, hc, if_true, hoverTransactions, workspaceResolved,
+        allTransactions, List.mem_append]
+      simp only [WsView.contains, Bool.and_eq_true, Bool.or_eq_true, beq_iff_eq] at hc
+      by_cases hr : path = w.root
+      · rw [hs.root w hv hr]; exact Or.inl htx
+      · obtain ⟨hl, ho⟩ := hs.member w hv hr (by rcases hc.2 with h | h; exact absurd h hr; exact h)
+        refine Or.inr (List.mem_flatMap.mpr ⟨path, ho, ?_⟩)
+        simpa [fileTxs, hl] using htx
+    · simp only [workspaceResolvedFor, hc]
+      exact hown
+
+/-- **current_file_counted** (no guard on where the request comes from): an account hover
+    shows the balance lines and the posting count over the chosen tree, and that count
+    includes the posting under the cursor. -/
+theorem current_file_counted (v : Option WsView) (perUri : Option Resolved) (path : Bytes)
+    (doc : Journal) (lns : List HL.Text.Txt) (p : LspPos) (rng : Rng) (acc : Account)
+    (h : findElement doc.transactions (runePos lns p) = some (.account rng acc))
+    (hs : InSync v perUri path doc) :
+    let txs := hoverTransactions (workspaceResolvedFor v path) perUri doc
+    (hoverAt v perUri path doc lns p).map (·.figures) =
+      some (.account acc.name (accountBalanceLines (accountBalances txs) acc.name)
+        (countPostings acc.name txs)) ∧
+    1 ≤ countPostings acc.name txs :=
+  current_file_counted_partial (workspaceResolvedFor v path) perUri doc lns p rng acc h
+    (current_file_in_scope v perUri path doc hs)
 
 /-- The column where `estimatePayeeRange` expects the payee. -/
 def payeeStart (tx : Transaction) : Nat :=
@@ -566,12 +634,46 @@ theorem truncated_tree_counterexample :
   decide
 
 open Cex in
-/-- With a workspace, a request from a file outside the root's include tree is answered from
-    the root's tree only: the posting under the cursor is not counted. -/
-theorem orphan_file_counterexample :
-    hover (some ⟨some fileB, [], []⟩) none (journal [tx 1 [posting op 2 (some 3)]])
-        ["2024-01-15 x".toList, "  o:p  3 USD".toList, []] ⟨1, 2⟩
-      = some ⟨.account op [] 0, (1, 2, 1, 5)⟩ := by
+/-- Before fix-orphan-journal-own-tree.diff: with a workspace, a request from a file outside the
+    root's include tree (`o`; the root is `b`) was answered from the root's tree only — the
+    posting under the cursor was not counted (0 postings, no balance).  The repaired server
+    answers from the document's own tree: 1 posting, 3 USD. -/
+theorem pinned_orphan_file_counterexample :
+    let w : WsView := ⟨⟨some fileB, [], []⟩, b⟩
+    let doc := journal [tx 1 [posting op 2 (some 3)]]
+    let lns : List HL.Text.Txt := ["2024-01-15 x".toList, "  o:p  3 USD".toList, []]
+    w.contains [111] = false ∧
+    pinnedHoverAt (some w) (some ⟨some doc, [], []⟩) [111] doc lns ⟨1, 2⟩
+      = some ⟨.account op [] 0, (1, 2, 1, 5)⟩ ∧
+    hoverAt (some w) (some ⟨some doc, [], []⟩) [111] doc lns ⟨1, 2⟩
+      = some ⟨.account op [(usd, ⟨3, 0⟩)] 1, (1, 2, 1, 5)⟩ := by
+  decide
+
+open Cex in
+/-- The hypotheses of `current_file_counted` hold on that very input (a journal outside the
+    root's tree whose per-URI tree is that of its current text): non-vacuity on the shape that
+    used to fail. -/
+example :
+    let w : WsView := ⟨⟨some fileB, [], []⟩, b⟩
+    let doc := journal [tx 1 [posting op 2 (some 3)]]
+    InSync (some w) (some ⟨some doc, [], []⟩) [111] doc ∧
+    ∃ rng acc, findElement doc.transactions (runePos ["2024-01-15 x".toList, "  o:p  3 USD".toList, []] ⟨1, 2⟩) = some (.account rng acc) := by
+  refine ⟨⟨?_, ?_, ?_⟩, _, _, rfl⟩
+  · intro w hw hp; cases hw; exact absurd hp (by decide)
+  · intro w hw _ hl; cases hw; exact absurd hl (by decide)
+  · intro r hr; cases hr; rfl
+
+open Cex in
+/-- Known finding `unsaved-include-not-seen` (shared with C09): a document answered from its own
+    tree (no workspace, or a journal outside the root's tree) includes `b`, which is open with
+    an unsaved edit (7 USD where the file on disk has 5 USD); the per-URI resolved journal was
+    loaded from disk and still holds the disk version: Hover shows 5 USD. -/
+theorem unsaved_include_not_seen_counterexample :
+    let held : Resolved := ⟨some (journal []), [(b, fileB)], [b]⟩
+    let current : Resolved := ⟨some (journal []), [(b, fileC)], [b]⟩
+    balLookup (accountBalances (hoverTransactions (workspaceResolvedFor none [111]) (some held) (journal []))) (xy, usd)
+      = some ⟨5, 0⟩ ∧
+    balLookup (accountBalances (allTransactions current)) (xy, usd) = some ⟨7, 0⟩ := by
   decide
 
 open Cex in
@@ -619,7 +721,11 @@ theorem hover_amount_hover_judged : type_of% @HL.Props.C20Hover.amount_hover_jud
 theorem hover_amount_exact : type_of% @HL.Props.C20Hover.amount_hover_exact := @HL.Props.C20Hover.amount_hover_exact
 theorem hover_dup_include_doubled_counterexample : type_of% @HL.Props.C20Hover.dup_include_doubled_counterexample := @HL.Props.C20Hover.dup_include_doubled_counterexample
 theorem hover_truncated_tree_counterexample : type_of% @HL.Props.C20Hover.truncated_tree_counterexample := @HL.Props.C20Hover.truncated_tree_counterexample
-theorem hover_orphan_file_counterexample : type_of% @HL.Props.C20Hover.orphan_file_counterexample := @HL.Props.C20Hover.orphan_file_counterexample
+theorem hover_tree_choice : type_of% @HL.Props.C20Hover.hover_tree_choice := @HL.Props.C20Hover.hover_tree_choice
+theorem hover_current_file_in_scope : type_of% @HL.Props.C20Hover.current_file_in_scope := @HL.Props.C20Hover.current_file_in_scope
+theorem hover_current_file_counted : type_of% @HL.Props.C20Hover.current_file_counted := @HL.Props.C20Hover.current_file_counted
+theorem pinned_hover_orphan_file_counterexample : type_of% @HL.Props.C20Hover.pinned_orphan_file_counterexample := @HL.Props.C20Hover.pinned_orphan_file_counterexample
+theorem hover_unsaved_include_not_seen_counterexample : type_of% @HL.Props.C20Hover.unsaved_include_not_seen_counterexample := @HL.Props.C20Hover.unsaved_include_not_seen_counterexample
 theorem hover_payee_range_counterexample : type_of% @HL.Props.C20Hover.payee_range_counterexample := @HL.Props.C20Hover.payee_range_counterexample
 theorem hover_txline_tags_dropped_counterexample : type_of% @HL.Props.C20Hover.txline_tags_dropped_counterexample := @HL.Props.C20Hover.txline_tags_dropped_counterexample
 end HL.Props.C20
